@@ -534,6 +534,17 @@ fn nonfinite_pressure() -> Vec<Value> {
 }
 
 fn main() {
+    if std::env::args().any(|a| a == "--sweep") {
+        let a: Vec<String> = std::env::args().collect();
+        let o = sweep::run(a[4].parse().unwrap(), a[2].parse().unwrap(), a[3].parse().unwrap(), 5);
+        let mut j = o.json.clone();
+        let f = j["failures"].as_array().unwrap().clone();
+        j["failures"] = serde_json::json!(f.len());
+        j["samples"] = serde_json::json!(0);
+        println!("{}", serde_json::to_string_pretty(&j).unwrap());
+        for x in f.iter().take(12) { println!("{x}"); }
+        return;
+    }
     let cli = feos_verif::cli::Cli::parse("/verif/coq/gen/C03");
     let mut rng = Rng(cli.seed.wrapping_mul(0x2545_F491_4F6C_DD1D).wrapping_add(3));
     let (cases, files) = pattern_cases(&cli, &mut rng);
